@@ -2260,7 +2260,9 @@ impl Gen {
         } else if r < 38 {
             (self.rng.next() as u32) & 0x007f_ffff
         } else if r < 44 {
-            *self.rng.pick(&[0x7f7f_ffffu32, 0x0080_0000, 1, 0x7f80_0000, 0x007f_ffff])
+            // (0x15ae43fd: the one single whose shortest digits, read through a double, name its neighbour — printed
+            // with the digits of the double since 265a080; with both neighbours)
+            *self.rng.pick(&[0x7f7f_ffffu32, 0x0080_0000, 1, 0x7f80_0000, 0x007f_ffff, 0x15ae_43fd, 0x15ae_43fc, 0x15ae_43fe])
         } else if r < 58 {
             let k = (self.rng.below(254) + 1) as u32;
             (k << 23).wrapping_add(self.rng.below(5) as u32).wrapping_sub(2)
